@@ -144,6 +144,38 @@ class SchedFuzz:
             self.missing_sites.append(f'{name or pattern}:{e!r}')
         return self
 
+    def add_handler_sites(self, *funcs, prob=0.5, delay=0.015, name='exception-handler-entry'):
+        """Targeted delay at the entry of every exception handler of the given functions.  Timeouts of polling loops surface
+        as exceptions (queue.Empty / Full, TimeoutError): holding the thread right after its timed wait expired, before it acts
+        on what it believes, is the schedule that exposes check-then-act races around polling.  Only delays; always legal."""
+        import dis
+
+        for f in funcs:
+            try:
+                for c in code_objects(f, True):
+                    try:
+                        entries = dis.Bytecode(c).exception_entries
+                    except Exception:
+                        continue
+                    off2line = {}
+                    cur = None
+                    for ins in dis.get_instructions(c):
+                        if ins.starts_line is not None:
+                            cur = ins.starts_line if isinstance(ins.starts_line, int) else cur
+                        if getattr(ins, 'positions', None) is not None and ins.positions.lineno is not None:
+                            cur = ins.positions.lineno
+                        off2line[ins.offset] = cur
+                    for e in entries:
+                        ln = off2line.get(e.target)
+                        if ln is None:
+                            continue
+                        if c not in self._codes:
+                            self._codes.append(c)
+                        self._sites.setdefault((c, ln), (prob, delay, name))
+            except Exception as e:
+                self.missing_sites.append(f'handlers:{getattr(f, "__name__", f)!r}:{e!r}')
+        return self
+
     # ---- run
     def start(self):
         if self._active:
